@@ -55,6 +55,9 @@ func (f *Fround) Call(s *slip.Scope, args slip.List, depth int) slip.Object {
 		switch values[1].(type) {
 		case slip.SingleFloat:
 			values[0] = slip.SingleFloat(tv)
+		case *slip.LongFloat:
+			var z big.Float
+			values[0] = (*slip.LongFloat)(z.SetInt64(int64(tv)))
 		default:
 			values[0] = slip.DoubleFloat(tv)
 		}
